@@ -868,7 +868,9 @@ def main(R):
               "lazy stack, _SubTensorDict with int/slice/tuple/list/mask windows, tensorclass, memory-mapped, shared) x 8 entry layouts "
               "(contiguous, offset, strided, transposed, expanded, 0-size feature, 0-size batch, mixed) x preceding histories of 0..k random "
               "in-place/structure/view calls; programs: register-machine programs of fixture construction + history + operation run on "
-              "real objects and on the extracted model. distinct by (kind, layout, op, args, history); non-trivial = the call ran (did "
+              "real objects and on the extracted model; x-programs (harness/c07_ext.py): the same for _SubTensorDict windows (basic and "
+              "advanced), lazy stacks (stack dim 0..2, 2-3 members) and memmap_/share_memory_ conversions, with the sentinel conclusions "
+              "of the window / stack theorems evaluated on the implementation. distinct by (kind, layout, op, args, history); non-trivial = the call ran (did "
               "not raise before touching anything) and at least one non-empty tensor was involved" % (len(RF.OPS), len({o.method for o in RF.OPS})))
     R.assumptions = ["which cells a torch kernel writes / which index map a torch view op produces is torch's behaviour (trusted); the harness "
                      "reads index maps from shape/stride/storage_offset and contents from the flat storage view",
@@ -960,6 +962,9 @@ def main(R):
             # D75: set_ below a missing node adds keys
             if last == "set_" and p["outs"][-1] == "ok":
                 _check_set_keys(R, p)
+        # -------------------------------------------------------------- (3) windows, lazy stacks, conversions: model vs implementation
+        from . import c07_ext as X
+        X.run_stream(R, 1000 if quick else 16000)
     if len(R.samples) < 6:
         R.samples.append({"note": "programs are replayable from their seed: see harness/c07.py gen_program"})
 
@@ -1014,6 +1019,9 @@ def replay(body):
         print("oracle:", "FAILS " + json.dumps([(l, d) for (l, d, s) in r["fails"]], default=str) if r["fails"] else "holds")
         print("model: (the reflection stream is judged by the oracle only; kinds covered by the model are exercised by the program stream)")
         return 0
+    if case.get("stream") == "xprogram":
+        from . import c07_ext as X
+        return X.replay_x(case)
     prog = case["prog"]
     it = replay_program(prog)
     print("program:")
